@@ -378,7 +378,7 @@ func (lc *linChecker) judge(toks []proggen.LinTok) (sig, detail, class, harness 
 	if h2 != "" || dir2 != dir {
 		return "", "", "", fmt.Sprintf("verdict with imported prelude (%s) differs from verdict on the self-contained program (%s %s):\n%s", dir, dir2, h2, proggen.RenderLin(toks))
 	}
-	core := lc.minimize(toks, dir)
+	core := lc.minimizeMemo(toks, dir)
 	sig = dir + "|" + proggen.LinSkeleton(core)
 	if dir == "rejects-linear" {
 		detail = fmt.Sprintf("every path of the program is linear but the checker reports %v:\n%s(reduced core: %s)", kinds, bodyOf(toks), proggen.LinSkeleton(core))
@@ -390,6 +390,35 @@ func (lc *linChecker) judge(toks []proggen.LinTok) (sig, detail, class, harness 
 		detail = fmt.Sprintf("some path has %s but the checker accepts:\n%s(reduced core: %s)", what, bodyOf(toks), proggen.LinSkeleton(core))
 	}
 	return sig, detail, "", ""
+}
+
+// linMemo caches reduced cores by canonicalised program (all invalidations as
+// destroy, all loops as while): the many leaf-kind variants of one program
+// share one reduction. The cache key determines the result, so the outcome
+// does not depend on which worker sees a program first.
+var linMemo sync.Map
+
+func (lc *linChecker) minimizeMemo(toks []proggen.LinTok, dir string) []proggen.LinTok {
+	canon := make([]proggen.LinTok, len(toks))
+	for i, t := range toks {
+		switch t.K {
+		case proggen.LArg, proggen.LArr, proggen.LOpt:
+			t.K = proggen.LDestroy
+		case proggen.LFor:
+			t.K = proggen.LWhile
+		}
+		canon[i] = t
+	}
+	if d, _, _, h := lc.disagreement(canon, true); h != "" || d != dir {
+		return lc.minimize(toks, dir)
+	}
+	key := dir + fmt.Sprint(canon)
+	if v, ok := linMemo.Load(key); ok {
+		return v.([]proggen.LinTok)
+	}
+	core := lc.minimize(canon, dir)
+	linMemo.Store(key, core)
+	return core
 }
 
 // minimize greedily reduces a disagreeing program to a 1-minimal core that is
